@@ -112,8 +112,7 @@ EXPORT errno_t _memcpy16_s_chk(uint16_t *dest, rsize_t dmax,
         BND_CHK_PTR_BOUNDS(src, smax);
     } else {
         if (unlikely(smax > srcbos)) {
-            invoke_safe_mem_constraint_handler("memcmp16_s: slen exceeds src",
-                                               (void *)src, ESLEMAX);
+            handle_mem_error((void *)dest, dmax, "memcmp16_s: slen exceeds src", ESLEMAX);
             return (RCNEGATE(ESLEMAX));
         }
     }
